@@ -176,7 +176,7 @@ func parseUint64(lex *lexer.PeekingLexer) (uint64, error) {
 		}
 	}
 	tok := lex.Next()
-	if l, err := strconv.ParseUint(tok.Value, 10, 64); err == nil {
+	if l, err := strconv.ParseUint(tok.Value, 0, 64); err == nil {
 		return l, nil
 	}
 	return 0, &participle.ParseError{
